@@ -206,9 +206,32 @@ def run(ctx):
                        f"{names[i]} and {names[j]} are both true for {ov}", {"a": _show_set(a), "b": _show_set(b)})
     for u in sorted(undecided):
         ctx.decline(u)
+    _forwarding(ctx)
     _beta_gamma(ctx, L)
     ctx.decline("sign of costheta/cottheta on theta- and eta-stored signatures is not decided here; those entries are proved equal to the z-stored entry (whose sign is decided by C13.z-sign) under C01.base-agreement")
     ctx.decline("behaviour exactly at interval boundaries in float64 (open vs closed endpoints are not distinguished)")
+
+
+def _forwarding(ctx):
+    """the public predicates reach the kernels decided above: same group, same name, tolerance first"""
+    from ..methods import class_methods
+
+    ctx.rule("C13.method-forwarding", "Planar/Spatial.is_parallel|is_antiparallel|is_perpendicular and Lorentz.is_timelike|is_lightlike|is_spacelike are one "
+                                      "dispatch to the module of the class's own group and the same name, with (tolerance, self[, other])")
+    n = 0
+    for cls, g, names, args in (("Planar", "planar", ("is_parallel", "is_antiparallel", "is_perpendicular"), ["tolerance", "self", "other"]),
+                                ("Spatial", "spatial", ("is_parallel", "is_antiparallel", "is_perpendicular"), ["tolerance", "self", "other"]),
+                                ("Lorentz", "lorentz", ("is_timelike", "is_lightlike", "is_spacelike"), ["tolerance", "self"])):
+        ms = class_methods(cls)
+        for name in names:
+            m = ms.get(name)
+            if m is None:
+                raise AnalysisError(f"anchor {cls}.{name} missing")
+            n += 1
+            ok = len(m.sites) == 1 and m.sites[0].group == g and m.sites[0].module == name and m.sites[0].args == args
+            ctx.ob("C13.method-forwarding", f"{cls}.{name}", ok, f"expected a single {g}.{name}.dispatch({', '.join(args)})",
+                   [s_.as_dict() for s_ in m.sites], f"src/vector/_methods.py:{m.fn.lineno}")
+    ctx.anchor("predicate methods", n, 9)
 
 
 def _beta_gamma(ctx, L):
